@@ -866,3 +866,26 @@ for cfg in C14_CFGS_T:
         gen={"kind": "c01_digest_trunc", "st": 3, "en": 6})
     c14("ooc_new_from_internals", M_HASH, "c11_ooc_new_from_internals_short_norm", cfg, ("thorough",), (600, 1800), 150,
         "constructor out of contract: returned => valid", ["FuzzyHashData::new_from_internals"], only_tag="VERIF_TAG")
+
+
+# ------------------------------------------------------------------------------------
+# E2 (SMT over MIR) queries
+# ------------------------------------------------------------------------------------
+add(Q("c19_roll_step_smt", "C19", harness="roll_step", engine="smt", cap=(60, 120), cost=30,
+      shape="inductive step",
+      bound="none: update_by_byte from ANY state satisfying InvR, all 7 window indices, every byte; value() is the "
+            "wrapping sum; no panic -- hence after any byte sequence the value is the stated function of the last "
+            "seven bytes (zero padded)",
+      enc=["RollingHash::update_by_byte (MIR)", "RollingHash::value (MIR)"],
+      assumptions=["InvR: h1 = sum, h2 = position-weighted sum, h3 = shift-5-xor fold of the window read in age order "
+                   "(established by new(): all zero, checked by c19_roll_value_from_new_k9)",
+                   "rustc MIR (-Zunpretty=mir, overflow checks on) is the program; translator limited to the listed subset"]))
+add(Q("c08_lcs_step_smt", "C08", harness="lcs_step", engine="smt", cap=(120, 300), cost=60,
+      shape="inductive step",
+      bound="none on string length or alphabet: loop body of edit_distance_internal at its cut point for ANY 64-bit v and "
+            "match mask e advances the DP-row encoding exactly as the textbook LCS recurrence; entry v0 = !0; exit "
+            "value len + |other| - 2*count_zeros(v) without overflow",
+      outside="that the MIR of the generic default method is what each implementor runs (rustc monomorphisation)",
+      enc=["BlockHashPositionArrayImplInternal::edit_distance_internal (MIR: loop body, entry, exit)"],
+      assumptions=["row encoding: cell i = number of zero bits of v below position i; mask bits only below len "
+                   "(position-array validity, C17)", "symbols < 64 (the index assertion in the loop body)"]))
